@@ -1,5 +1,7 @@
 import logging
 
+import numpy as np
+
 from ..decorators import (
     _display_or_return,
     _inplace_enabled,
@@ -384,7 +386,8 @@ class PropertiesDataBounds(PropertiesData):
             for prop in ("_FillValue", "missing_value"):
                 x = b.get_property(prop, c.get_property(prop, None))
                 if x is not None:
-                    fill_values.append(x)
+                    # Note: 'missing_value' may be a vector
+                    fill_values.extend(np.ravel(x))
 
             kwargs = {"inplace": True, "fill_values": fill_values}
 
